@@ -94,6 +94,16 @@ def run(tier):
             mods = [("main.pn", main_), ("lib.pn", lib)]
             if order: mods.reverse()
             marked.append(("om%d.%d" % (mi, order), "known-offender:" + code, "".join("//// module %s\n%s" % m for m in mods)))
+    # the returned value is the offender (E333: the value does not have the declared return type)
+    marked.append(("orv", "known-offender:333", "fn foo() -> i32\n{\n\tvar x: bool = true;\n\treturn: x // HERE\n}\nfn main()\n{\n}\n"))
+    marked.append(("orv2", "known-offender:333", "fn foo(a: i32) -> bool\n{\n\tif a == 1\n\t{\n\t\ta = 2;\n\t}\n\treturn: a // HERE\n\n\n}\nfn main()\n{\n}\n"))
+    # a lexically broken literal earlier on the line: the tokens after it keep their places
+    for ui2, lit in enumerate(['"a\\qb"', "'ab'", '"\\u{110000}"', '"\\xZ1"', "'\\q'"]):
+        known.append(("kb%d" % ui2, "known-ident", "fn main()\n{\n\tvar v0: i32 = 1;\n\tprint!(%s, qq7, \"\\n\");\n}\n" % lit))
+    # a syntax error after a lexically broken literal on the same line (nothing later than the parser runs then)
+    for ui3, lit in enumerate(['"a\\qb"', "'ab'", '"\\u{110000}"', '"\\xZ1" "ok"', "'\\q'", '"caf\\u{e9}"']):
+        marked.append(("sb%d" % ui3, "span-text:300:=", "const A: []char8 = %s; const B: = 1;\n" % lit))
+        marked.append(("sc%d" % ui3, "span-text:300:}", "fn main()\n{\n\tvar a = %s; var b: i32 = ;\n}\n" % lit if False else "fn main()\n{\n\tvar a = %s; var b: i32 = 1 }\n" % lit))
     # text before the offender on the same line whose length in characters differs from its length in the source
     for ui, lit in enumerate(['"caf\\u{e9}: "', '"\\u{1F600}\\u{20ac}"', '"\\x41\\n\\t"', "'\\u{41}'", '"é€😀"', '"a" "b"']):
         known.append(("ku%d" % ui, "known-ident", "fn main()\n{\n\tvar v0: i32 = 1;\n\tprint!(%s, qq7, \"\\n\");\n}\n" % lit))
@@ -118,6 +128,13 @@ def run(tier):
             continue
         files = dict(GM_split(src))
         diags = f[1].split(" ") if len(f) > 1 and f[1] else []
+        if kind.startswith("span-text:"):
+            # the diagnostic of this code must cover exactly this text
+            _, want, txt = kind.split(":", 2)
+            mine = [re.match(r"\d+@(.*):(\d+)-(\d+):", d) for d in diags if d.startswith(want + "@")]
+            if mine and not any(files.get(m_.group(1), "")[int(m_.group(2)):int(m_.group(3))] == txt for m_ in mine if m_):
+                bad += 1
+                ck.violation("span-misses-offender:E" + want, "E%s covers %s, the offending text is `%s`" % (want, [files.get(m_.group(1), "")[int(m_.group(2)):int(m_.group(3))] for m_ in mine if m_], txt), "source:\n%s\ndiagnostics: %s" % (src, f[1]))
         if kind.startswith("known-offender:"):
             want = kind.split(":")[1]
             hfile = [fn_ for fn_, text_ in files.items() if "// HERE" in text_][0]
